@@ -325,10 +325,6 @@ pub fn gen_vec(asts: &[AST], env: &Environment, carry_env: bool, ctx: &Context, 
         r is Err ==> r->Err_0@.len() >= 1,
 { unimplemented!() }
 #[verifier::external_body]
-pub fn property_call(instance: &mut Vec<AST>, property: &AST, env: &Environment, ctx: &Context, constr: &mut ConstrBuilder) -> (r: Constrained)
-    ensures mono(*old(constr), *final(constr)), grows(*old(constr), *final(constr)), r is Err ==> r->Err_0@.len() >= 1,
-{ unimplemented!() }
-#[verifier::external_body]
 pub fn gen_magic(name: &str, ast: &AST, left: &AST, right: &AST, env: &Environment, ctx: &Context, constr: &mut ConstrBuilder) -> (r: Constrained)
     ensures mono(*old(constr), *final(constr)), grows(*old(constr), *final(constr)), r is Err ==> r->Err_0@.len() >= 1,
 { unimplemented!() }
@@ -359,6 +355,60 @@ pub fn verif_havoc_local_function_loop(functions: HashSet<(bool, Expected)>, arg
 pub fn verif_assigned_env(identifier: &Identifier, env: &Environment, pos: Position) -> (r: Environment)
     ensures r == (Environment { unassigned: r.unassigned, ..*env }), hss(r.unassigned).subset_of(hss(env.unassigned)),
 { unimplemented!() }
+
+// ---- property_call (C09: a constructor may not READ a field of self that is not assigned yet) ---------------------------------
+/// OUTLINED `instance.last().ok_or_else(|| vec![..])`
+#[verifier::external_body]
+pub fn verif_last_or_err<'a>(instance: &'a Vec<AST>, pos: Position) -> (r: TypeResult<&'a AST>)
+    ensures r matches Ok(a) ==> instance@.len() >= 1 && *a == instance@.last(), r is Err ==> r->Err_0@.len() >= 1,
+{ unimplemented!() }
+/// OUTLINED `[last_inst.clone()].iter().chain(args).map(Expected::from).collect()`: receiver first, then the arguments
+#[verifier::external_body]
+pub fn verif_call_args(last_inst: &AST, args: &Vec<AST>) -> (r: Vec<Expected>) ensures r@.len() == args@.len() + 1 { unimplemented!() }
+/// OUTLINED `instance.iter().rfold(property.clone(), |acc, ast| AST::new(ast.pos, PropertyCall { .. }))`: the whole access chain as one node
+#[verifier::external_body]
+pub fn verif_fold_chain(instance: &Vec<AST>, last: AST) -> AST { unimplemented!() }
+/// OUTLINED `match instance.len().cmp(&1) { Less => panic!(..), Equal => last_inst.clone(), Greater => { remove last; rfold } }`:
+/// the receiver chain without the accessed member (A-EXT: `instance` is never empty here — verif_last_or_err succeeded)
+#[verifier::external_body]
+pub fn verif_without_access(instance: &mut Vec<AST>) -> AST { unimplemented!() }
+impl HashSet<String> {
+    #[verifier::external_body]
+    pub fn contains(&self, x: &String) -> (r: bool) ensures r == hss(*self).contains(x@) { unimplemented!() }
+}
+impl Position {
+    #[verifier::external_body]
+    pub fn union(&self, other: Position) -> Position { unimplemented!() }
+}
+
+/// the member read is a not yet assigned field of `self`
+pub open spec fn reads_unassigned_self_field(last: AST, property: AST, env: Environment) -> bool {
+    property.node matches Node::Id { lit } && last.node matches Node::Id { lit: recv } && recv@ == "self"@ && hss(env.unassigned).contains(lit@)
+}
+
+#[verifier::exec_allows_no_decreases_clause]
+//@@ FN src/check/constrain/generate/call.rs | free | property_call | props=C09,C03
+//@@ REPLACE pin=ac6a55a2ca5f
+//@@< instance.last().ok_or_else($$)
+//@@> verif_last_or_err(instance, property.pos)
+//@@ REPLACE
+//@@< instance == arg::SELF
+//@@> verif_string_is(instance, SELF)
+//@@ REPLACE
+//@@< [last_inst.clone()] .iter() .chain(args) .map(Expected::from) .collect()
+//@@> verif_call_args(last_inst, args)
+//@@ REPLACE pin=9da0bee489d3
+//@@< instance.iter().rfold(property.clone(), $$)
+//@@> verif_fold_chain(instance, property.clone())
+//@@ REPLACE pin=2b16feab9ee0
+//@@< match instance.len().cmp(&1) { $$ }
+//@@> verif_without_access(instance)
+    ensures
+        mono(*old(constr), *final(constr)), grows(*old(constr), *final(constr)), //# nothing_is_forgotten [C09]
+        (old(instance)@.len() >= 1 && reads_unassigned_self_field(old(instance)@.last(), *property, *env)) ==> r is Err, //# read_of_an_unassigned_field_of_self_is_refused [C09]
+        r matches Ok(e) ==> e == *env,                                           //# an_access_defines_nothing [C09]
+        r is Err ==> r->Err_0@.len() >= 1,                                       //# rejection_carries_a_diagnostic [-]
+//@@ END
 
 pub open spec fn call_post(ast: AST, env: Environment, ctx: Context, r: Constrained, b0: ConstrBuilder, b1: ConstrBuilder) -> bool {
     match ast.node {
